@@ -25,7 +25,8 @@ RULE = ('models of a grammar whose name and value attributes are STRINGs, filled
         'structure, hostile character classes present); non-trivial = hostile characters or a mixed list present')
 REQUIRED = {'model_exports': 300, 'metamodel_dot_exports': 100, 'plantuml_exports': 100, 'hostile_strings': 500,
             'mixed_lists': 50, 'multi_file_exports': 30, 'nodes_checked': 2000,
-            'models_with_value_equal_user_objects': 50, 'models_with_falsy_user_objects': 30}
+            'models_with_value_equal_user_objects': 50, 'models_with_falsy_user_objects': 30,
+            'models_with_property_backed_user_objects': 30, 'models_with_slots_user_objects': 30, 'string_model_exports': 50}
 
 GRAMMAR = '''
 Model: imports*=Import objs*=Obj;
@@ -215,7 +216,7 @@ def one(ctx, i, rep=None):
                 with open(os.path.join(tmp, nm), 'w') as f:
                     f.write(t)
             classes = []
-            cv = (i // 6) % 4
+            cv = (i // 6) % 6
             if cv == 1:
                 # user class whose instances are falsy (an empty container-like object)
                 class Sub:
@@ -226,7 +227,7 @@ def one(ctx, i, rep=None):
                         return 0
                 classes = [Sub]
                 ctx.count('models_with_falsy_user_objects')
-            if cv >= 2:
+            if cv in (2, 3):
                 # user classes with value semantics: distinct objects compare equal (cv 2: hashable, cv 3: unhashable)
                 class Sub:
                     def __init__(self, parent=None, name=None, of=None):
@@ -237,10 +238,36 @@ def one(ctx, i, rep=None):
                     __hash__ = (lambda self: 7) if cv == 2 else None
                 classes = [Sub]
                 ctx.count('models_with_value_equal_user_objects')
-            mm = metamodel_from_str(GRAMMAR, classes=classes)
+            if cv == 4:
+                # user class that keeps the grammar attributes under other names and exposes them through read-only properties
+                class Sub:
+                    def __init__(self, parent=None, name=None, of=None):
+                        self._p, self._n, self._o = parent, name, of
+                    parent = property(lambda self: self._p)
+                    name = property(lambda self: self._n)
+                    of = property(lambda self: self._o)
+                classes = [Sub]
+                ctx.count('models_with_property_backed_user_objects')
+            if cv == 5:
+                # user class without an instance dictionary
+                class Sub:
+                    __slots__ = ('parent', 'name', 'of', '__weakref__')
+
+                    def __init__(self, parent=None, name=None, of=None):
+                        self.parent, self.name, self.of = parent, name, of
+                classes = [Sub]
+                ctx.count('models_with_slots_user_objects')
+            # the exported model is a string model: alone (i % 12 == 10) or of a metamodel whose global repository already
+            # holds a file model (i % 12 == 4)
+            strmode = {4: 'global', 10: 'alone'}.get(i % 12)
+            mm = metamodel_from_str(GRAMMAR, classes=classes, global_repository=strmode == 'global')
             mm.register_scope_providers({'*.*': sp.PlainNameImportURI()})
             try:
                 m = mm.model_from_file(os.path.join(tmp, 'main.m'))
+                if strmode:
+                    texts.append(gen_model(r, 's', count=count))
+                    m = mm.model_from_str(texts[-1])
+                    ctx.count('string_model_exports')
             except TextXError as e:
                 ctx.count('harness_models_rejected')
                 return
@@ -267,8 +294,8 @@ def one(ctx, i, rep=None):
             ok = check_dot(ctx, buf.getvalue(), 'model export', wit, rep, expect_ids=exp)
             cls = tuple(sorted({c for t in texts for c in t if not c.isalnum() and not c.isspace()}))
             ctx.case(('model', cls, two, len(objs)), count[0] > 0 or count[1] > 0, {'model': texts[0][:300]} if ctx.evaluations < 2 else None)
-            if ok and r.random() < 0.3:
-                # through the registered generator for any model
+            if ok and r.random() < 0.3 and not strmode:
+                # through the registered generator (it names its output after the model file) for any model
                 from textx import generator_for_language_target
                 gen = generator_for_language_target('any', 'dot')
                 outdir = os.path.join(tmp, 'out')
